@@ -978,6 +978,15 @@ func callBuiltin(caller *frame, callpos token.Pos, fn *ssa.Builtin, args []value
 			return append(args[0].([]value), s.b...)
 		}
 		// append([]T, ...[]T) []T
+		if caller.i.ps != nil && caller.i.ps.track != nil {
+			dst, add := args[0].([]value), args[1].([]value)
+			if len(add) > 0 && cap(dst) >= len(dst)+len(add) {
+				full := dst[:cap(dst)]
+				for k := len(dst); k < len(dst)+len(add); k++ {
+					caller.i.noteWrite(&full[k])
+				}
+			}
+		}
 		return append(args[0].([]value), args[1].([]value)...)
 
 	case "copy": // copy([]T, []T) int or copy([]byte, string) int
@@ -995,6 +1004,9 @@ func callBuiltin(caller *frame, callpos token.Pos, fn *ssa.Builtin, args []value
 	case "delete": // delete(map[K]value, K)
 		switch m := args[0].(type) {
 		case *omap:
+			if caller.i.ps != nil && caller.i.ps.track != nil {
+				caller.i.noteMapWrite(m)
+			}
 			m.delete(caller.i, args[1])
 		default:
 			panic(fmt.Sprintf("illegal map type: %T", m))
